@@ -97,6 +97,16 @@ func checkIDLength(id, kind string) error {
 	return nil
 }
 
+// notOnlyTooManyBytes filters the result of a room ID check made while an event is parsed:
+// a room ID that exceeds only the byte limit is too large but persistable, so it does not
+// stop the event from being parsed. CheckFields reports it, together with the event.
+func notOnlyTooManyBytes(err error) error {
+	if e, ok := err.(EventValidationError); ok && e.Persistable {
+		return nil
+	}
+	return err
+}
+
 // checkValidRoomID refuses room IDs that spec.NewRoomID refuses, so that RoomID() cannot
 // panic on an event that parsing accepted.
 func checkValidRoomID(roomID string) error {
